@@ -89,6 +89,8 @@ NFINDALL = z3.Function("el_findall_len", El, S, I)
 FINDALL = z3.Function("el_findall_item", El, S, I, El)
 NSPLIT = z3.Function("str_split_len", S, S, I)
 SPLITPART = z3.Function("str_split_part", S, S, I, S)
+AFTERLAST = z3.Function("str_after_last", S, S, S)   # the part of s after the last occurrence of sep (s itself if none)
+LASTIDX = z3.Function("str_rfind", S, S, I)
 STRIP = z3.Function("str_strip", S, S)
 CONV = z3.Function("convert_greek_and_symbols", S, S)   # the (pure, deterministic) function itself at call sites
 OML = z3.Function("omml_to_latex_of", El, S)            # omml_to_latex as a function of the (unmodified) tree, at call sites
@@ -309,8 +311,7 @@ def find_facts(e, path, r):
 
 def lname(e):
     """local name of the element's tag: the part after the last '}'"""
-    t = TAG(e)
-    return SPLITPART(t, sval("}"), z3.simplify(NSPLIT(t, sval("}")) - 1))
+    return AFTERLAST(TAG(e), sval("}"))
 
 
 def m_find(ex, st, obj, args, kwargs, node):
@@ -387,7 +388,48 @@ def m_split(ex, st, args, kwargs, node):
     sep = sval(args[1].const())
     n = NSPLIT(s.t, sep)
     st.assume(n >= 1)                 # str.split(sep) never returns an empty list
-    return [(st, VSeq(n, lambda i: VStr(SPLITPART(s.t, sep, z3.simplify(i))), "str"))]
+    last = z3.simplify(n - 1)
+
+    def part(i):
+        i = z3.simplify(i)
+        return VStr(AFTERLAST(s.t, sep)) if i.eq(last) else VStr(SPLITPART(s.t, sep, i))      # [-1]: after the last sep
+    return [(st, VSeq(n, part, "str"))]
+
+
+def m_rsplit(ex, st, args, kwargs, node):
+    s = args[0]
+    if len(args) != 3 or kwargs or not isinstance(args[1], VStr) or not args[1].const() or not isinstance(args[2], VInt) \
+            or args[2].const() is None or args[2].const() < 1:
+        raise Unsupported(f"{ex.loc(node)} str.rsplit form not modelled")
+    sep = sval(args[1].const())
+    n = z3.Int(fresh_name("nrsplit"))
+    st.assume(z3.And(n >= 1, n <= args[2].const() + 1))
+    last = z3.simplify(n - 1)
+
+    def part(i):
+        i = z3.simplify(i)
+        return VStr(AFTERLAST(s.t, sep)) if i.eq(last) else VStr(z3.String(fresh_name("rsplit_part")))
+    return [(st, VSeq(n, part, "str"))]
+
+
+def m_rpartition(ex, st, args, kwargs, node):
+    s = args[0]
+    if len(args) != 2 or kwargs or not isinstance(args[1], VStr) or not args[1].const():
+        raise Unsupported(f"{ex.loc(node)} str.rpartition form not modelled")
+    sep = sval(args[1].const())
+    has = z3.Contains(s.t, sep)
+    return [(st, VTuple([VStr(z3.String(fresh_name("rpart_head"))), VStr(z3.If(has, sep, sval(""))), VStr(AFTERLAST(s.t, sep))]))]
+
+
+def m_rfind(ex, st, args, kwargs, node):
+    s = args[0]
+    if len(args) != 2 or kwargs or not isinstance(args[1], VStr) or not args[1].const():
+        raise Unsupported(f"{ex.loc(node)} str.rfind form not modelled")
+    sep = sval(args[1].const())
+    k, ln, m = LASTIDX(s.t, sep), z3.Length(s.t), len(args[1].const())
+    st.assume(z3.And(k >= -1, k + m <= ln, (k >= 0) == z3.Contains(s.t, sep)))
+    st.assume(z3.If(k < 0, AFTERLAST(s.t, sep) == s.t, AFTERLAST(s.t, sep) == z3.SubString(s.t, k + m, ln - k - m)))
+    return [(st, VInt(k))]
 
 
 def m_strip(ex, st, args, kwargs, node):
@@ -511,6 +553,9 @@ def install(reg):
     reg.method_models[("Element", "iter")] = m_iter
     reg.attr_models[("Element", "tag")] = a_tag
     reg.ext_models["str.split"] = m_split
+    reg.ext_models["str.rsplit"] = m_rsplit
+    reg.ext_models["str.rpartition"] = m_rpartition
+    reg.ext_models["str.rfind"] = m_rfind
     reg.ext_models["str.strip"] = m_strip
     reg.ext_models["str.index"] = m_index
     reg.ext_models["str.partition"] = m_partition
@@ -1336,6 +1381,10 @@ def tables(repo, tier):
                     allowed_globals.add(k)
                     changed = True
         allowed_globals |= {k for k in m.functions if "." not in k} | {"ET"}
+        # a module logger: log statements are not part of the function's result (PY-LOG)
+        allowed_globals |= {k for k, v in m.assigns.items() if isinstance(v, ast.Call) and dotted(v.func) in
+                            ("logging.getLogger", "getLogger")}
+        allowed_globals |= {k for k, v in m.imports.items() if v.split(".")[0] in ("logging", "typing", "__future__")}
         locs = {a.arg for a in fo.args.args} | {n.id for n in ast.walk(fo) if isinstance(n, ast.Name) and isinstance(n.ctx, ast.Store)}
         locs |= {a.arg for a in fp.args.args} | {fp.name}
         ann = set()
